@@ -487,13 +487,15 @@ class C13(Check):
                     bump(fa, 'clock_read_fails')
                     log.add(op, arg, got, 'clock failed')
                     if got != ('exc', 'ClockFault'):
-                        # swallowed or translated: nothing in the statement
-                        # says what the call should then answer
                         bump(pr, 'clock_failure_not_propagated')
-                        break
-                    # the call did not take place: the calls that follow
-                    # find the watch as it was
-                    continue
+                    # The statement speaks of clock READINGS; what a watch
+                    # is after a call during which the clock source failed
+                    # it does not say (a tree that commits its new state
+                    # before reading the clock keeps the property as stated),
+                    # so nothing after this point is judged: the fault is
+                    # injected to see that nothing hangs or corrupts the
+                    # harness, and is counted.
+                    break
                 reads = clock.log[mark:]
                 r = reads[-1] if reads else None
                 back = clock.went_back
